@@ -85,10 +85,14 @@ void bad_exp_sib__nosign__fp_exp_slide(fp_t c, const fp_t a, const bn_t b) {
 	fp_free(r);
 }
 
-/* zero exponent not handled: bn_bits(0) - 2 < 0, the loop is skipped and a is returned */
-void bad_exp_sib__nozero__fp_exp_monty(fp_t c, const fp_t a, const bn_t b) {
+/* the zero exponent is told apart but answered with the base */
+void bad_exp_sib__zero__fp_exp_monty(fp_t c, const fp_t a, const bn_t b) {
 	fp_t r;
 
+	if (bn_is_zero(b)) {
+		fp_copy(c, a);
+		return;
+	}
 	fp_null(r);
 	fp_new(r);
 	fp_copy(r, a);
